@@ -95,6 +95,7 @@ func runCase(c *vh.Ctx, scratch string, cc caseCfg, facts factsT, ops []op, reco
 	gone := map[int64]string{}
 	dupAt := map[int64]string{}
 	inWal := map[int64]bool{}     // currently in some WAL file
+	rejectedGone := map[int64]bool{}
 	walGone := map[int64]string{} // event after which the id's last WAL-file copy was removed
 	exec := func(o op) {
 		full0 := ingest.VerifC07FullCount()
@@ -129,7 +130,11 @@ func runCase(c *vh.Ctx, scratch string, cc caseCfg, facts factsT, ops []op, reco
 				nowIn = nowIn || hasID(f, id)
 			}
 			if inWal[id] && !nowIn {
-				walGone[id] = o.kind
+				walGone[id] = strings.TrimSuffix(o.kind, "f") // tickf / restartf are a tick / restart
+				// by cause: this very replay pass rejected the entry holding the row, yet its file is gone
+				if hasID(s.rejected, id) && (o.kind == "tickf" || o.kind == "restartf") {
+					rejectedGone[id] = true
+				}
 			}
 			inWal[id] = nowIn
 			if _, ok := gone[id]; !ok && !pending {
@@ -154,8 +159,14 @@ func runCase(c *vh.Ctx, scratch string, cc caseCfg, facts factsT, ops []op, reco
 			break
 		}
 		// guards: the tick and the coordinator take the writer mutex
-		if (o.kind == "tick" || o.kind == "shut") && s.paused {
+		if (o.kind == "tick" || o.kind == "tickf" || o.kind == "shut") && s.paused {
 			exec(op{kind: "wresume"})
+		}
+		if o.kind == "late" && s.g.holding() {
+			exec(op{kind: "unhold"})
+		}
+		if o.kind == "hold" && s.store.late {
+			continue
 		}
 		// a parked task keeps the flush deadline it was created with: stall mode and a held worker are
 		// kept apart so that every stalled flush runs into a deadline created in stall mode
@@ -193,6 +204,9 @@ func runCase(c *vh.Ctx, scratch string, cc caseCfg, facts factsT, ops []op, reco
 			if g, ok := walGone[id]; ok {
 				res.cause[id] = "wal-copy-removed-by-" + g
 			}
+			if rejectedGone[id] {
+				res.cause[id] = "wal-file-deleted-after-rejected-entry-replay"
+			}
 			if s.store.unflagged[id] {
 				// by cause: the row's flush ran into the flush deadline on stalled storage and the
 				// failure site did not raise the flush-failure flag, so no replay was ever armed
@@ -201,6 +215,11 @@ func runCase(c *vh.Ctx, scratch string, cc caseCfg, facts factsT, ops []op, reco
 		case n > 1:
 			res.dup[id] = dupAt[id]
 			res.cause[id] = "wal-replayed-by-" + walGone[id]
+			if s.store.falseFail[id] {
+				// by cause: every storage write of the row's flush succeeded, the flush was still reported
+				// failed (flag raised), so the maintenance replay stored the row again
+				res.cause[id] = "flush-reported-failed-after-successful-write"
+			}
 		}
 	}
 	return res
@@ -216,8 +235,19 @@ func report(c *vh.Ctx, cc caseCfg, res caseRes, forced string) bool {
 		return false
 	}
 	if res.crash {
-		c.Tag("crash-trace(no-monitor)")
-		return false
+		// a kill loses what the async WAL channel had not persisted: only the causes that do not depend on
+		// that are monitored in traces with a crash
+		c.Tag("crash-trace(cause-monitors-only)")
+		for id := range res.lost {
+			if res.cause[id] != "wal-file-deleted-after-rejected-entry-replay" {
+				delete(res.lost, id)
+			}
+		}
+		for id := range res.dup {
+			if res.cause[id] != "flush-reported-failed-after-successful-write" {
+				delete(res.dup, id)
+			}
+		}
 	}
 	replay := strings.Join(res.lines, " ; ")
 	bad := false
@@ -242,12 +272,18 @@ func report(c *vh.Ctx, cc caseCfg, res caseRes, forced string) bool {
 		if strings.HasPrefix(forced, "loss:") && res.cause[id] != "flush-timeout-never-flagged" {
 			key = forced
 		}
+		if res.cause[id] == "wal-file-deleted-after-rejected-entry-replay" {
+			key = "acked-row-lost:" + res.cause[id]
+		}
 		fail(key, fmt.Sprintf("acknowledged row %d is never stored although storage recovered and maintenance ticks, aged flush, graceful shutdown and restart completed (last copy gone after event %q)", id, k))
 	}
 	for id, k := range res.dup {
 		key := "dup:" + res.cause[id]
 		if strings.HasPrefix(forced, "dup:") {
 			key = forced
+		}
+		if res.cause[id] == "flush-reported-failed-after-successful-write" {
+			key = "stored-twice:" + res.cause[id]
 		}
 		fail(key, fmt.Sprintf("row %d is stored more than once (second Parquet copy appeared after event %q)", id, k))
 	}
@@ -284,6 +320,27 @@ func scenarios() []scenario {
 		// (t2) the same for the aged (sync) flush and a WriteTypedColumnarDirect batch (row-format WAL entry)
 		{"loss:flush-timeout-never-flagged", true, 1, []op{k("restart"), wk("wd", 0, r(1, 0)), k("stall"), adv(610), k("age"),
 			wk("wd", 1, r(2, 0), r(3, 0)), mode(-1), adv(10), k("tick")}},
+		// (r) mixed-format WAL file (columnar, row-format, columnar entry); the replay pass of the tick has
+		// its first callback invocation rejected: the file must stay until every entry was replayed
+		{"acked-row-lost:wal-file-deleted-after-rejected-entry-replay", true, 1, []op{k("restart"), mode(0), w(0, r(1, 0), r(2, 0)),
+			wk("wd", 1, r(3, 0), r(4, 0)), adv(310), w(0, r(5, 0)), mode(-1), adv(10), op{kind: "tickf", n: 0},
+			adv(10), mode(0), w(1, r(6, 0), r(7, 0)), mode(-1), adv(310), w(1, r(8, 0)), adv(10), k("tick")}},
+		// (r2) the same at start-up recovery after a kill -- not monitored (crash), model diff only; and
+		// after a graceful stop that left files behind is impossible (PurgeAll), so a second tick variant
+		// with the rejected entry in the middle of the file
+		{"acked-row-lost:wal-file-deleted-after-rejected-entry-replay", true, 1, []op{k("restart"), mode(0), wk("wd", 1, r(1, 0), r(2, 0)),
+			w(0, r(3, 0), r(4, 0)), wk("wd", 1, r(5, 0), r(6, 0)), adv(310), w(0, r(7, 0)), mode(-1), adv(10), op{kind: "tickf", n: 1},
+			adv(10), mode(0), w(1, r(8, 0), r(9, 0)), mode(-1), adv(310), w(1, r(10, 0)), adv(10), k("tick")}},
+		{"acked-row-lost:wal-file-deleted-after-rejected-entry-replay", true, 1, []op{k("restart"), mode(0), w(0, r(1, 0), r(2, 0)),
+			wk("wd", 1, r(3, 0), r(4, 0)), k("crash"), mode(-1), op{kind: "restartf", n: 0}}},
+		// (l) the storage write succeeds but returns only after the flush deadline (backend ignoring ctx):
+		// the flush IS a success -- no flag, no replay, every row stored once (single- and multi-hour)
+		{"stored-twice:flush-reported-failed-after-successful-write", true, 1, []op{k("restart"), k("late"), w(0, r(1, 0), r(2, 0)),
+			mode(-1), adv(310), w(1, r(3, 0), r(4, 0)), adv(10), k("tick")}},
+		{"stored-twice:flush-reported-failed-after-successful-write", true, 1, []op{k("restart"), k("late"), wk("wt", 0, r(1, 0), r(2, 1)),
+			mode(-1), adv(310), w(1, r(3, 0), r(4, 0)), adv(10), k("tick")}},
+		{"stored-twice:flush-reported-failed-after-successful-write", true, 1, []op{k("restart"), w(0, r(1, 0)), k("late"), adv(610), k("age"),
+			mode(-1), adv(310), w(1, r(2, 0), r(3, 0)), adv(10), k("tick")}},
 		// (b) queue-full drop with WAL, the tick comes in time (file rotated, younger than safeAge): before
 		// repair B (52926d5) the flag was not raised, no replay ran and the shutdown purge removed the rows
 		{"loss:queue-full-drop-never-replayed-then-purged", true, 1, []op{k("restart"), k("hold"),
@@ -344,11 +401,11 @@ func (g *genState) rows(rd *vh.Rand, multiHour bool) []row {
 }
 
 // symbolic alphabet; concrete ops are made when the sequence is instantiated
-var alphabet = []string{"w0", "w0x2", "w1", "w1mh", "wt0", "wt0x2", "wd1", "wd0x2", "stall", "hold", "unhold", "step1", "fail", "fail1", "ok", "wpause", "wresume",
+var alphabet = []string{"w0", "w0x2", "w1", "w1mh", "wt0", "wt0x2", "wd1", "wd0x2", "stall", "late", "tickf0", "tickf1", "restartf0", "hold", "unhold", "step1", "fail", "fail1", "ok", "wpause", "wresume",
 	"adv10", "adv310", "adv610", "adv1810", "age", "tick", "shut", "restart", "crash"}
 
 // reduced alphabet for the exhaustive enumeration (thorough)
-var alphabetEx = []string{"w0x2", "wt1", "wd0x2", "stall", "hold", "unhold", "fail", "ok", "adv310", "adv1810", "tick", "shut", "restart"}
+var alphabetEx = []string{"w0x2", "wt1", "wd0x2", "stall", "late", "tickf0", "hold", "unhold", "fail", "ok", "adv310", "adv1810", "tick", "shut", "restart"}
 
 func instantiate(g *genState, sym string) op {
 	mk := func(key int, hs ...int) op {
@@ -368,6 +425,12 @@ func instantiate(g *genState, sym string) op {
 		return mk(1, 0)
 	case "w1mh":
 		return mk(1, 0, 1)
+	case "tickf0":
+		return op{kind: "tickf", n: 0}
+	case "tickf1":
+		return op{kind: "tickf", n: 1}
+	case "restartf0":
+		return op{kind: "restartf", n: 0}
 	case "wt0":
 		o := mk(0, 0)
 		o.kind = "wt"
@@ -409,7 +472,7 @@ func instantiate(g *genState, sym string) op {
 func randomSeq(rd *vh.Rand, maxLen int, crashOK bool) []string {
 	n := 3 + rd.Intn(maxLen-2)
 	seq := []string{"restart"}
-	weights := map[string]int{"wt0": 5, "wt0x2": 5, "wd1": 4, "wd0x2": 5, "stall": 3, "w0": 10, "w0x2": 10, "w1": 8, "w1mh": 5, "hold": 4, "unhold": 4, "step1": 3, "fail": 6, "fail1": 3,
+	weights := map[string]int{"late": 3, "tickf0": 3, "tickf1": 2, "restartf0": 1, "wt0": 5, "wt0x2": 5, "wd1": 4, "wd0x2": 5, "stall": 3, "w0": 10, "w0x2": 10, "w1": 8, "w1mh": 5, "hold": 4, "unhold": 4, "step1": 3, "fail": 6, "fail1": 3,
 		"ok": 6, "wpause": 2, "wresume": 2, "adv10": 5, "adv310": 6, "adv610": 3, "adv1810": 4, "age": 3, "tick": 9, "shut": 2, "restart": 2, "crash": 0}
 	if crashOK {
 		weights["crash"] = 1
